@@ -2403,7 +2403,7 @@ def gen_edge(rng) -> dict:
 
 
 
-def gen_links_rich(rng) -> dict:
+def gen_links_rich(rng, shape=None) -> dict:
     """Symbolic links as file-system objects (model `saveL`): the request goes through a symlinked parent directory
     and/or a chain of 0..4 links (relative texts with `..`, absolute texts, links inside sub-directories), the chain may
     end in an existing file or dangle; external tensors spell the data file through the request, through other
@@ -2413,7 +2413,9 @@ def gen_links_rich(rng) -> dict:
     real = rng.choice(["store/w.bin", "sub/deep/w.bin", "w-v1.bin"])
     links, dirs = [], ["sub", "store", "sub/deep"]
     base = rng.choice(["model.data", "m.data"])
+    forced = shape
     shape = rng.choice(["dirlink", "dirlink+chain", "chain", "chain", "dotdot", "dangling-chain", "plain-in-dirlink", "cycle"])
+    shape = forced or shape
     fb = [rng.randrange(256) for _ in range(rng.choice([4, 12, 30]))]
     pre = {}
     exists = shape not in ("dangling-chain",) and rng.random() < 0.85
@@ -2730,6 +2732,11 @@ def run(ctx: Ctx) -> None:
         cases.append(gen_edge(ctx.rng))
     for _ in range(ctx.pick(28, 260)):
         cases.append(gen_links_rich(ctx.rng))
+    # D360 (observation, outside the C08 statement): a cyclic symbolic link as destination is generated on EVERY run
+    # (both entry points) and counted (`observed_D360_cyclic_link_replaced`)
+    for _ in range(ctx.pick(2, 6)):
+        cases.append(gen_links_rich(ctx.rng, shape="cycle"))
+    ctx.count("D360_cycle_cases_generated", sum(1 for c in cases if c.get("label") == "rich-cycle"))
     for _ in range(ctx.pick(10, 100)):
         cases.append(gen_parallel_det(ctx.rng))
     for _ in range(ctx.pick(10, 100)):
